@@ -87,6 +87,21 @@ impl T {
         }
     }
 
+    /// immediate operands
+    pub fn children(&self) -> Vec<&T> {
+        match self {
+            T::Cat2(a, b) | T::Alt2(a, b) | T::And2(a, b) | T::Diff1(a, b) => vec![a, b],
+            T::CatL(v) | T::AltL(v) | T::AndL(v) => v.iter().collect(),
+            T::DiffL(a, v) => {
+                let mut r: Vec<&T> = vec![a];
+                r.extend(v.iter());
+                r
+            }
+            T::Not(a) | T::Star(a) | T::Plus(a) | T::Opt(a) | T::Pow(a, _) | T::SmtLoop(a, _, _) | T::Loop(a, _, _) | T::Quot(_, a) => vec![a],
+            _ => vec![],
+        }
+    }
+
     /// the constructor name used at the root (for branch statistics)
     pub fn op(&self) -> &'static str {
         match self {
@@ -849,6 +864,38 @@ pub fn adjacent_range_family(pool: &Pool) -> Vec<T> {
     v
 }
 
+/// Complements (and other terms with a non-trivial complementary class) in NON-head positions: after a
+/// prefix, under a loop, inside one arm of a union - states reached later have defaults of their own.
+pub fn complement_inside_family(pool: &Pool) -> Vec<T> {
+    let (a, bb, c) = (T::Chr(pool.a), T::Chr(pool.b), T::Chr(pool.c));
+    let ab = T::Str(vec![pool.a, pool.b]);
+    let inner: Vec<T> = vec![
+        T::Cat2(b(&bb), b(&T::All)),
+        T::Cat2(b(&T::All), b(&bb)),
+        T::CatL(vec![T::All, bb.clone(), T::All]),
+        bb.clone(),
+        T::Eps,
+        T::Cat2(b(&ab), b(&T::All)),
+        T::Rng(pool.a, pool.b),
+        T::Star(b(&bb)),
+    ];
+    let heads: Vec<T> = vec![a.clone(), ab.clone(), T::Rng(pool.a, pool.b), T::Star(b(&a)), T::AllChar, T::Opt(b(&c))];
+    let mut v = vec![];
+    for y in &inner {
+        let n = T::Not(b(y));
+        for x in &heads {
+            v.push(T::Cat2(b(x), b(&n)));
+            v.push(T::Cat2(b(&n), b(x)));
+            v.push(T::Alt2(b(&c), Box::new(T::Cat2(b(x), b(&n)))));
+        }
+        v.push(T::Star(Box::new(T::Cat2(b(&a), b(&n)))));
+        v.push(T::CatL(vec![a.clone(), n.clone(), c.clone()]));
+        v.push(T::And2(Box::new(T::Cat2(b(&a), b(&n))), Box::new(T::Cat2(b(&T::All), b(&c)))));
+        v.push(T::Cat2(b(&a), Box::new(T::Diff1(b(&T::Plus(b(&T::AllChar))), b(y)))));
+    }
+    v
+}
+
 /// Unions / intersections whose operands are related by inclusion (directly or under complement):
 /// the constructors prune subsumed operands with the syntactic inclusion test, and derivatives of
 /// such terms create new unions of the same kind.
@@ -908,7 +955,17 @@ pub fn semantically_empty_family(pool: &Pool) -> Vec<T> {
     let e5 = T::Diff1(b(&a), Box::new(T::Rng(pool.a, pool.b)));
     let e6 = T::And2(Box::new(T::Pow(b(&T::AllChar), 2)), Box::new(T::Pow(b(&T::AllChar), 3)));
     let e7 = T::AndL(vec![T::Star(b(&ab)), T::Plus(b(&T::AllChar)), T::Not(Box::new(T::Cat2(b(&ab), b(&T::All))))]);
-    let empties = vec![e1, e2, e3, e4, e5, e6, e7];
+    // complements of terms that are universal semantically but not syntactically (the empty term is then a
+    // complement NODE, not a base term)
+    let u1 = T::Alt2(Box::new(T::Not(b(&a))), Box::new(T::Not(b(&bb))));
+    let u2 = T::Alt2(Box::new(T::Not(Box::new(T::Cat2(b(&a), b(&T::All))))), Box::new(T::Not(Box::new(T::Cat2(b(&bb), b(&T::All))))));
+    let u3 = T::Star(Box::new(T::Alt2(Box::new(T::Rng(0, pool.a)), Box::new(T::Rng(pool.a + 1, MAX_CHAR)))));
+    let u4 = T::Alt2(Box::new(T::Opt(b(&a))), Box::new(T::Not(b(&a))));
+    let e8 = T::Not(b(&u1));
+    let e9 = T::Not(b(&u2));
+    let e10 = T::Not(b(&u3));
+    let e11 = T::Not(b(&u4));
+    let empties = vec![e1, e2, e3, e4, e5, e6, e7, e8, e9, e10, e11];
     let mut v = empties.clone();
     for e in &empties {
         v.push(T::Star(b(e)));
